@@ -96,6 +96,16 @@ var c09Forms = []string{
 	"(let ((x 1)) (set! x (+ x 1 2)) (list x (if (> x 3) 'big 'small)))",
 	"(assert (= 1 1) \"msg {} {}\" 1 2)",
 	"(labels ((ev (n) (if (= n 0) true (od (- n 1) 'x 'y))) (od (n a b) (if (= n 0) false (ev (- n 1))))) (list (ev 4) (od 3 1 2)))",
+	// expansion CHAINS: an earlier step hands a quoted program literal on verbatim, a later macro
+	// (reached by macroexpand's second or third step, by macroexpand-1 applied twice, or by
+	// ordinary evaluation) takes it as &rest / whole argument and changes it in place
+	"(defmacro pass (form) form) (defmacro smallest (&rest xs) (car (stable-sort < xs))) (macroexpand '(pass (smallest 3 1 2)))",
+	"(defmacro pass (form) form) (defmacro smallest (&rest xs) (car (stable-sort < xs))) (macroexpand '(pass (pass (smallest 3 1 2))))",
+	"(defmacro pass (form) form) (defmacro smallest (&rest xs) (car (stable-sort < xs))) (macroexpand-1 (macroexpand-1 '(pass (smallest 3 1 2))))",
+	"(defmacro pass (form) form) (defmacro smallest (&rest xs) (car (stable-sort < xs))) (list (pass (smallest 3 1 2)) (pass (smallest 3 1 2)))",
+	"(defmacro pass (&rest forms) (car forms)) (defmacro srt (x) (stable-sort < x) (list 'quote x)) (macroexpand '(pass (srt (3 1 2)) (srt (6 5 4))))",
+	"(defmacro pass (form) (list 'progn form)) (defmacro smallest (&rest xs) (car (stable-sort < xs))) (list (macroexpand '(pass (smallest 3 1 2))) (pass (smallest 3 1 2)))",
+	"(defmacro twice (form) (list 'list form form)) (defmacro smallest (&rest xs) (car (stable-sort < xs))) (list (macroexpand '(twice (smallest 3 1 2))) (twice (smallest 9 8 7)))",
 }
 
 // Evaluating a parsed program never changes it: no write reaches a node of the sealed tree, every
